@@ -494,6 +494,35 @@ int vnadata_resize(vnadata_t *vdp, vnadata_parameter_type_t type,
 int vnadata_init(vnadata_t *vdp, vnadata_parameter_type_t type,
 	int rows, int columns, int frequencies)
 {
+    vnadata_internal_t *vdip;
+
+    /*
+     * Check the arguments before anything is reset: a refused call
+     * leaves the object as it was.
+     */
+    if (vdp == NULL) {
+	errno = EINVAL;
+	return -1;
+    }
+    vdip = VDP_TO_VDIP(vdp);
+    if (vdip->vdi_magic != VDI_MAGIC) {
+	errno = EINVAL;
+	return -1;
+    }
+    if (rows < 0 || columns < 0 || frequencies < 0) {
+	_vnadata_error(vdip, VNAERR_USAGE,
+	    "vnadata_init: dimensions cannot be negative: %d x %d x %d",
+	    rows, columns, frequencies);
+	return -1;
+    }
+    if (validate_type(__func__, vdip, type, rows, columns) == -1) {
+	return -1;
+    }
+    if (rows != 0 && columns > INT_MAX / rows) {
+	_vnadata_error(vdip, VNAERR_USAGE,
+	    "vnadata_init: dimensions %d x %d are too large", rows, columns);
+	return -1;
+    }
     if (vnadata_resize(vdp, VPT_UNDEF, 0, 0, 0) == -1) {
 	return -1;
     }
